@@ -390,9 +390,14 @@ def __neg(units):
     return deepcopy(units)
 
 
+def __non_zero(units):
+    return {unit: count for unit, count in units.items() if count != 0}
+
+
 def __add_and_sub(units_var1, units_var2):
-    # compare as plain mappings: the order in which the factors were written is irrelevant
-    if units_var1 and units_var2 and dict(units_var1) != dict(units_var2):
+    # compare as plain mappings: the order in which the factors were written is irrelevant,
+    # and so is a unit that has cancelled (e.g. in the expansion of a named unit)
+    if units_var1 and units_var2 and __non_zero(units_var1) != __non_zero(units_var2):
         warnings.warn("You're trying to add/subtract two values with mismatching units.")
         return OrderedDict()
     if not units_var1:  # If any of the two units are empty, use the other one
